@@ -94,7 +94,8 @@ func stripCRLF(b []byte) []byte {
 func BodyEvent(text string, desc interface{}) rec.Event { return BodyEventPrior(text, desc, 0) }
 
 // BodyEventPrior: prior = 0 sets the body of a fresh message, 1 of a message that already had another body set, 2 of a
-// message that was parsed from bytes (and so already has a body and a Body header).
+// message that was parsed from bytes (and so already has a body and a Body header), 3 of a parsed message that declares
+// another character set.
 func BodyEventPrior(text string, desc interface{}, prior int) rec.Event {
 	ev := rec.Event{"op": "Body", "desc": desc, "inlen": len(text), "err": false, "crlfOnly": false, "maxLine": 0, "textPreserved": false,
 		"bodyHeader": -1, "bodyHeaderWire": -1, "outlen": 0, "bodyAccessor": false, "prior": prior}
@@ -108,11 +109,15 @@ func BodyEventPrior(text string, desc interface{}, prior int) rec.Event {
 		switch prior {
 		case 1:
 			m.SetBody("an earlier body of another length\r\nsecond line\r\n")
-		case 2:
+		case 2, 3:
 			pm := fbb.NewMessage(fbb.Private, "LA5NTA")
 			pm.AddTo("LA1B")
 			pm.SetSubject("parsed first")
 			pm.SetBody("the body this message had when it was read\r\n")
+			if prior == 3 { // written by a client that declares another character set (the ASCII body is valid in it)
+				pm.Header.Set("Content-Type", "text/plain; charset=UTF-8")
+				pm.Header.Set("Content-Transfer-Encoding", "8bit")
+			}
 			if b, err := pm.Bytes(); err == nil {
 				m = new(fbb.Message)
 				if err := m.ReadFrom(bytes.NewReader(b)); err != nil {
@@ -258,7 +263,7 @@ func MainBody(args []string) int {
 			return err
 		}
 		text := expand(s, rng)
-		w.Write(nil, []rec.Event{BodyEventPrior(text, s.Shape, n%3)})
+		w.Write(nil, []rec.Event{BodyEventPrior(text, s.Shape, n%4)})
 		if len(text) < 5000 {
 			remember(text, s.Shape)
 			if n%3 == 0 {
@@ -292,7 +297,7 @@ func MainBody(args []string) int {
 			}
 			sb.WriteString([]string{"\n", "\r\n", "\n", ""}[rng.Intn(4)])
 		}
-		w.Write(nil, []rec.Event{BodyEventPrior(sb.String(), "free-form", i%3)})
+		w.Write(nil, []rec.Event{BodyEventPrior(sb.String(), "free-form", i%4)})
 	}
 	fmt.Printf("{\"traces\":%d,\"shapes\":%d}\n", w.Count(), n)
 	return 0
